@@ -1303,6 +1303,10 @@ def run_ld(case, ctx):
         kw["max_distance"] = case["max_distance"]
     arr = np.asarray(ld.r2_array(a, **kw), dtype=float)
     ctx.label("r2_array_truncated", len(exp_list) < len(others))
+    # history on ONE calculator: single-pair queries after a restricted array query are unrestricted
+    for x in range(m):
+        for y in range(m):
+            cmp(ld.r2(x, y), E[x][y], f"r2({x},{y}) after r2_array({kw})")
     ctx.check(len(arr) == len(exp_list), "r2_array", f"length {len(arr)} expected {len(exp_list)} ({kw}, a={a})")
     for got, e in zip(arr, exp_list):
         cmp(float(got), e, "r2_array")
